@@ -64,9 +64,17 @@ func c17Gen(t *rapid.T) any {
 		c.LegacyVersion = uint(rapid.IntRange(0, 6).Draw(t, "legacy"))
 		c.Versions = rapid.SliceOfNDistinct(rapid.IntRange(0, 6), 1, 3, rapid.ID[int]).Draw(t, "versions")
 	}
-	if pct(t, "ports", 40) {
+	if pct(t, "ports", 45) {
 		c.MinPort = uint(rapid.IntRange(1024, 30000).Draw(t, "minport"))
 		c.MaxPort = c.MinPort + uint(rapid.IntRange(0, 2000).Draw(t, "portspan"))
+		// a caller may give only one bound (the other stays 0): the plugin must be told exactly that,
+		// the defaults apply only when both are unset
+		switch weighted(t, "portshape", 60, 20, 20) {
+		case 1:
+			c.MinPort = 0
+		case 2:
+			c.MaxPort = 0
+		}
 	}
 	c.AutoMTLS = pct(t, "automtls", 30)
 	c.Mux = pct(t, "mux", 35)
